@@ -62,7 +62,8 @@ class LSQ:
 
 
 def fit_block(args):
-    name, mode = args
+    name, mode = args[:2]
+    order = args[2] if len(args) > 2 else 'model'
     st = MC.use_mode('sx')
     E = st['E']
     import pygaps.modelling.base_model as BM
@@ -73,15 +74,16 @@ def fit_block(args):
         BM.logger.disabled = True
         BM.__lifted__ = True
     base = f"{P}/base_model.IsothermBaseModel.fit"
-    cfg = f"model={name}|optimiser={mode}"
-    replay = {'kind': 'c12.fit', 'model': name}
+    cfg = f"model={name}|optimiser={mode}" + ('' if order == 'model' else f"|bounds_given_in={order}_order")
+    replay = {'kind': 'c12.fit', 'model': name, 'order': order}
     eng = sx.Engine(max_paths=64, div0='assume')
 
     def run():
         m = MC.sx_model(eng, name)
         cls = type(m)
         pnames = list(m.params)
-        m.param_bounds = {p: (eng.real(f'lo_{p}'), eng.real(f'hi_{p}')) for p in pnames}
+        # the bounds in force are a dictionary by parameter name: its key order is the caller's business
+        m.param_bounds = {p: (eng.real(f'lo_{p}'), eng.real(f'hi_{p}')) for p in (pnames if order == 'model' else pnames[::-1])}
         for p in pnames:
             eng.assume(m.param_bounds[p][0] < m.param_bounds[p][1])
         m.pressure_range = (eng.real('pr0', positive=True), eng.real('pr1', positive=True))
@@ -219,7 +221,7 @@ def run(rep):
                'model equations as executed by SX (C10); sqrt as s >= 0 with s^2 = argument; real arithmetic',
                'convergence, recovery of generating parameters, refit stability and unit covariance are numerical facts about the optimiser: bounded only')
     rep.trust('CPython 3.12', 'z3 5.1.0', 'pgv.sx', 'pgv.lift', 'pgv.npproxy')
-    jobs = [('fit', (n, 'ok')) for n in FIT_MODELS] + [('fit', (n, mode)) for n in ('Langmuir', 'FHVST') for mode in ('fail', 'ValueError')] + \
+    jobs = [('fit', (n, 'ok')) for n in FIT_MODELS] + [('fit', (n, 'ok', 'reversed')) for n in FIT_MODELS if n != 'Henry'] + [('fit', (n, mode)) for n in ('Langmuir', 'FHVST') for mode in ('fail', 'ValueError')] + \
         [('clamp', None)] + [('guess', k) for k in (1, 2, 3, 4)]
     obs, crashes = par.pmap(_dispatch, jobs)
     rep.extend(obs)
